@@ -108,6 +108,7 @@ pub struct Usage {
     /// peak of (live bytes - live bytes at arming)
     pub peak: usize,
     pub largest: usize,
+    #[allow(dead_code)]
     pub allocations: u64,
 }
 
